@@ -123,20 +123,30 @@ class Prop:
                    "the registry order read for the UNORDERED model input is tree._node_by_id.values(); only its multiset is compared",
                    "RuntimeWarning emitted for StopIteration signals is ignored (default warning filter, not 'error')"]
     manifest = dict(
-        text=("Machine-checked theorems (Coq 8.16, no axioms) about an executable model of Node/Tree.iterator, visit and "
-              "call_traversal_cb: for every tree, start node and add_self, each of the six ordered methods yields a permutation of the "
-              "branch without repetition, pre- and post-order are characterised as order relations (ancestor / earlier-sibling-subtree), "
-              "the four level methods equal the concatenation of the depth levels (nodes of depth k in pre-order) with the documented "
-              "direction per level, UNORDERED/RANDOM are permutations of the registry; visit() with callbacks that only continue or skip "
-              "calls exactly iterator() of the tree pruned below the skipping nodes (no pruning for post-order), and for any callback the "
-              "calls are the prefix of the non-stopping run up to the first stop/error with the carried value returned; every raw "
-              "returned/raised signal shape normalises as documented.  The model is tied to /repo on every run by a correspondence check "
-              "(vm_compute vs. the implementation on all forest shapes <=5 nodes (<=7 thorough), every start node, every signal node and "
-              "shape, plus random trees) and an independent Python oracle."),
+        text=("Machine-checked theorems (Coq 8.16, no axioms, 31 statements in coq/Properties/C06.v) about an executable model of "
+              "Node/Tree.iterator, Node/Tree.visit and call_traversal_cb.  For every tree, start node and add_self: each of the six ordered "
+              "methods yields a permutation of the branch without repetition (UNORDERED/RANDOM: a permutation of the registry), add_self "
+              "puts the start node first (last for post-order); the order of each method is characterised as a RELATION on node pairs "
+              "(pre: ancestor or earlier sibling sub-tree; post: descendant or earlier sibling sub-tree; level / level_rtl / zigzag / "
+              "zigzag_rtl: lexicographic on (depth, document position) with level d reversed iff rtl xor (zigzag and d odd)); the loop "
+              "bound of the level iterators and of _visit_level is never reached.  visit(): a callback that never signals is called "
+              "with exactly the iterator's sequence; a skip suppresses exactly the descendants of the skipping node (calls = the "
+              "subsequence of the iterator order without the nodes below a call answered Skip; nothing for post-order) - for stateless "
+              "skip sets and for arbitrary stateful callbacks; a stop signal or error at a call ends the traversal there: the calls "
+              "are the prefix of the muted run up to and including that call and visit returns the carried value, for each of the 9 "
+              "returned/raised stop shapes (StopTraversal, False, StopIteration; class or instance), all 16 raw shapes being normalised "
+              "as documented; for any callback whatsoever the calls are a duplicate-free subsequence of the iterator order.  Literal "
+              "tables of the source (IterMethod values, the _iter_*/_visit_* handlers of Node, the revert/toggle flags of the level "
+              "variants) are lifted on every run and must agree with the model (proof obligation).  The model is tied to /repo on every "
+              "run by a correspondence check (vm_compute vs. the implementation on all forest shapes <=5 nodes (<=7 thorough), every "
+              "start node, every signal node and shape, signals at the k-th call, plus random trees to 60/200 nodes) and an independent "
+              "Python oracle (orders as sort keys on root paths read off the parent/child pointers; also memo pass-through, the "
+              "RuntimeWarning for StopIteration signals and __iter__)."),
         note=("Trusted: Coq kernel + vm_compute; hand-written model theories/Forest/Traverse.v (tied by the correspondence only); harness "
               "generators/observation; node identity = allocation index.  The exact order of UNORDERED/RANDOM is not part of the property "
               "(compared as sorted multisets); random.shuffle is modelled as an arbitrary selection sequence.  Callbacks that mutate the "
-              "tree during traversal are outside the model."),
+              "tree during traversal are outside the model.  A callback returning any other value (True, 0, ...) makes visit raise "
+              "ValueError - modelled as it is (the docstring of call_traversal_cb says such values are ignored)."),
         technique="Coq proof about an executable Gallina model + differential correspondence check (vm_compute) + Python oracle",
         design_ref="DESIGN.md section 6 (C06)",
     )
